@@ -276,7 +276,10 @@ class Tokenizer:
         """Parse a template or argument at the head of the wikicode string."""
         self._head += 2
         braces = 2
-        while self._read() == "{" and braces < self.MAX_BRACES:
+        # Every pair of braces can become one more level of nesting in the
+        # tree, so a run may not be longer than the depth limit allows:
+        limit = min(self.MAX_BRACES, 2 * (self.MAX_DEPTH - self._depth))
+        while self._read() == "{" and braces < limit:
             self._head += 1
             braces += 1
         has_content = False
@@ -285,21 +288,27 @@ class Tokenizer:
         while braces:
             if braces == 1:
                 return self._emit_text_then_stack("{")
-            if braces == 2:
-                try:
-                    self._parse_template(has_content)
-                except BadRoute:
-                    return self._emit_text_then_stack("{{")
-                break
+            # The braces that stay open will enclose what is parsed now:
+            enclosing = (braces - 2) // 2
+            self._depth += enclosing
             try:
-                self._parse_argument()
-                braces -= 3
-            except BadRoute:
+                if braces == 2:
+                    try:
+                        self._parse_template(has_content)
+                    except BadRoute:
+                        return self._emit_text_then_stack("{{")
+                    break
                 try:
-                    self._parse_template(has_content)
-                    braces -= 2
+                    self._parse_argument()
+                    braces -= 3
                 except BadRoute:
-                    return self._emit_text_then_stack("{" * braces)
+                    try:
+                        self._parse_template(has_content)
+                        braces -= 2
+                    except BadRoute:
+                        return self._emit_text_then_stack("{" * braces)
+            finally:
+                self._depth -= enclosing
             if braces:
                 has_content = True
                 self._head += 1
